@@ -128,11 +128,12 @@ pub fn parse_conditions(it: &mut LexIterator) -> ParseResult<Vec<AST>> {
     let start = it.start_pos("conditions")?;
     let mut conditions = vec![];
 
-    if it.eat_if(&Token::NL).is_some() {
+    if it.eat_while(&Token::NL).is_some() {
         it.eat(&Token::Indent, "conditions")?;
+        it.eat_while(&Token::NL);
         it.peek_while_not_token(&Token::Dedent, &mut |it, _| {
             conditions.push(*it.parse(&parse_condition, "conditions", start)?);
-            it.eat_if(&Token::NL);
+            it.eat_while(&Token::NL);
             Ok(())
         })?;
         it.eat(&Token::Dedent, "conditions")?;
